@@ -315,3 +315,132 @@ def c17(tier):
 
 
 PLANS.update({"C06": c06, "C10": c10, "C11": c11, "C17": c17})
+
+
+# ------------------------------------------------------------------------------------------
+def c12(tier):
+    run = Run("C12", tier)
+    n = 1200 if tier == "quick" else 80000
+
+    def classify(preds):
+        if "C12" not in preds:
+            return []          # C12x is only a classifier of C12 failures
+        return [("C12", None if "C12x" in preds else "quoted-text-not-in-bounds")]
+    run.classify = classify
+    run.rule = ("every document is checked for RefCanvas (one cell of margin beyond the right-most / bottom-most "
+                "occupied display cell; both columns of a wide character; quotes and quoted content count) and "
+                "Contained (every vertex and text extent inside the canvas); inputs: the mixed corpus over the full "
+                "vocabulary, wide characters and quoted text at the right and bottom edge, legends, scales "
+                "{0.5, 8, 37.5}; the model part: the same predicate as invariant of Pipeline.tla on all small grids. "
+                "non-trivial = non-empty document")
+    r = common.rng("C12")
+    cfg = write_cfg("MC_C12", {"W": 3, "H": 2, "Alphabet": tla_set([32, 45, 124, 43, 46, 39, 97])},
+                    ["ModelC12", "ModelC09"])
+    run.model("MC_Doc", cfg)
+    corpus = [t for t in gen.mixed_corpus(r, n)]
+    extra = []
+    for i in range(n // 6):
+        w = r.randint(1, 12)
+        kind = i % 6
+        if kind == 0:
+            extra.append(gen.random_grid(r, w, r.randint(1, 4), "ab-|+ ", 0.5) + r.choice(gen.WIDE))
+        elif kind == 1:
+            extra.append(" " * r.randint(0, 9) + '"' + gen.random_grid(r, w, 1, "ab-|+<>& ", 0.8) + '"')
+        elif kind == 2:
+            extra.append(gen.box(w, 1) + "\n" + " " * r.randint(0, 14) + '"' + r.choice(gen.WIDE) * r.randint(1, 3) + '"')
+        elif kind == 3:
+            extra.append(gen.random_grid(r, w, 2, "ab-|+ ", 0.6) + "\n" + r.choice(LEGENDS))
+        elif kind == 4:
+            extra.append("\n" * r.randint(0, 3) + " " * r.randint(0, 5) + r.choice(["_", ".", "'", "/", "\\", "(", ")", "*", "o", "#", "v", "^", "┌", "╯"]))
+        else:
+            extra.append("")
+    texts = gen.dedup(corpus + extra + ["", " ", "\n\n", "a"])
+    cases = []
+    for i, t in enumerate(texts):
+        if i % 5 == 3:
+            cases.append({"input": t, "entry": "settings", "settings": {"scale": r.choice([0.5, 37.5])}})
+        else:
+            cases.append({"input": t})
+    obs = observe.observe(cases, tag="C12B")
+    for c, o in zip(cases, obs):
+        run.add_event({"props": ["C12", "C12x"], "rows": o["rows"], "doc": o["doc"]},
+                      {"input": c["input"], "entry": c.get("entry", "to_svg"), "settings": c.get("settings")})
+    run.samples += [{"input": extra[1]}, {"input": extra[2]}]
+    run.validate()
+    run.assumptions = std_assumptions() + ["'occupied' is read as: any non-whitespace character of the drawing part, "
+                                           "quotes and quoted content included"]
+    return run.finish()
+
+
+def c09(tier):
+    run = Run("C09", tier)
+    n = 1200 if tier == "quick" else 60000
+    maxlen = 60 if tier == "quick" else 400
+    run.rule = ("(i) run family: for each of - ~ _ = | : ! / \\ and the box-drawing equivalents, lengths 1..%d at "
+                "seeded offsets: RunOracle (exactly the expected line element(s), dashed iff the character is); "
+                "(ii) NoCollinearTouching on every document of the mixed corpus over the full vocabulary; the model "
+                "part: merge fixpoint + NoCollinearTouching as invariants of Pipeline.tla on all small grids. "
+                "non-trivial = the document has at least two plain lines, or is a run" % maxlen)
+    r = common.rng("C09")
+    cfg = write_cfg("MC_C09", {"W": 3, "H": 2, "Alphabet": tla_set([32, 45, 124, 43, 126, 58, 46])},
+                    ["ModelC09", "MergeFixpoint"])
+    run.model("MC_Doc", cfg)
+    runs = []
+    HCH = "-~_=─–—┄═‾¯"
+    VCH = "|:!│╎┊┆║"
+    lengths = sorted(set(list(range(1, 14)) + [r.randint(14, maxlen) for _ in range(10)] + [maxlen]))
+    for ch in HCH + VCH + "/\\╱╲":
+        for ln in lengths:
+            if ch in ":!" and ln < 2:
+                continue      # a lone ':' or '!' is text, not a run of line characters
+            k, nn = r.randint(0, 6), r.randint(0, 4)
+            if ch in HCH:
+                body, d = gen.hrun(ln, ch), "h"
+            elif ch in VCH:
+                body, d = gen.vrun(ln, ch), "v"
+            elif ch in "/╱":
+                body, d = "\n".join(" " * (ln - 1 - i) + ch for i in range(ln)), "s"
+            else:
+                body, d = "\n".join(" " * i + ch for i in range(ln)), "b"
+            runs.append((gen.shift_text(body, k, nn), {"ch": ord(ch), "len": ln, "dir": d, "k": k, "n": nn}))
+    obs = observe.observe([{"input": t} for t, _ in runs], tag="C09A")
+    for (t, info), o in zip(runs, obs):
+        run.add_event({"props": ["C09", "C09run"], "rows": o["rows"], "doc": o["doc"], "run": info},
+                      {"input": t, "run": info})
+    run.samples.append({"input": runs[5][0], "run": runs[5][1]})
+    corpus = gen.mixed_corpus(r, n)
+    observe_events(run, corpus, ["C09"], "mixed-corpus")
+    run.validate()
+    run.assumptions = std_assumptions()
+    return run.finish()
+
+
+def c04(tier):
+    run = Run("C04", tier)
+    n = 1500 if tier == "quick" else 80000
+    run.rule = ("TLC enumerates all rows of length <= 4 (quick) / 5 (thorough) over {a, é, 一, space, -, |} with a "
+                "second row of dashes (one span) on the text-merge model and checks RefTextRuns as invariant; every "
+                "behaviour is replayed; plus random multi-row inputs mixing ASCII, Latin-1, Cyrillic, CJK labels "
+                "with drawing characters (no quotes/braces). Trace predicate C04: every text element shows the input "
+                "characters at consecutive display columns from its anchor cell, texts are disjoint, every "
+                "non-drawing character is covered. non-trivial = at least one non-drawing character")
+    r = common.rng("C04")
+    L = 4 if tier == "quick" else 5
+    cfg = write_cfg("MC_C04", {"L": L, "Alphabet": tla_set([97, 233, 19968, 32, 45, 124])}, ["ModelC04", "Emit"])
+    res = run.model("MC_Text", cfg)
+    replay_models(run, [res], ["C04"])
+    run.exhaustive = True
+    texts = []
+    alpha = gen.LABELS[:10] + gen.WIDE + gen.LATIN + gen.CYRIL
+    for i in range(n):
+        w, h = r.randint(1, 14), r.randint(1, 6)
+        dens = r.choice([0.3, 0.6, 0.9])
+        texts.append(gen.random_grid(r, w, h, alpha + "-|+.'/\\*_<>", dens))
+    observe_events(run, gen.dedup(texts), ["C04"], "random-labels")
+    run.samples.append({"input": texts[0]})
+    run.validate()
+    run.assumptions = std_assumptions() + ["display width from Chars!WideCp; the drivers draw wide characters only from blocks on which all Unicode versions agree"]
+    return run.finish()
+
+
+PLANS.update({"C12": c12, "C09": c09, "C04": c04})
